@@ -777,6 +777,12 @@ fn process_attribute<'input>(
             return Err(Error::UnexpectedXmlnsUri(pos));
         }
 
+        // Check for duplicated default namespaces.
+        if ctx.doc.namespaces.exists(ctx.namespace_start_idx, None) {
+            let pos = ctx.doc.text_pos_at(range.start);
+            return Err(Error::DuplicatedAttribute(local.to_string(), pos));
+        }
+
         ctx.doc.namespaces.push_ns(None, value)?;
     } else {
         #[cfg(not(feature = "positions"))]
